@@ -7,7 +7,7 @@ P=$1; L=$2
 SRC=${SEEDROOT:-/tmp/seed}_$P/SEED_OUT
 BASE=${BASE:-9dc07ba}
 OUT=/verif/seeded/$P-$L
-WT=/tmp/confirm_${P}_$L
+WT=/tmp/confirm${CONFIRM_TAG:-}_${P}_$L
 [ -f $SRC/$L.diff ] || { echo "no $SRC/$L.diff"; exit 3; }
 rm -rf $WT; git -C /repo worktree prune; git -C /repo worktree add --detach $WT $BASE >/dev/null 2>&1 || exit 3
 cd $WT
